@@ -35,6 +35,7 @@ CAND = {
  "sbank": ["B1", "XS1"],                    # a non-staked bank of the group; a staked bank of another group
  "lstmint": ["LST2", "M1"], "solpool": ["SP2.stake", "SP3"], "stakepool": ["SP2", "stranger"],
  "rec3": ["A2.rec"],
+ "bankf": ["X1", "B1"],                      # another group's bank; a bank of the group that is not flagged tokenless-complete
  "signer": [], "free": [], "payer": [], "new": [],
 }
 
@@ -103,6 +104,8 @@ OPS = {
  "add_bank_staked": dict(role="anyone", base={"op":"add_bank_staked","group":"G1","bank":"SB3","pool":"SP3","seed":0},
                    slots=S(("marginfi_group","group"),("staked_settings","ssettings"),("fee_payer","signer"),("bank_mint","lstmint"),("sol_pool","solpool"),("stake_pool","stakepool"),("bank","new"),
                            ("liquidity_vault_authority","free"),("liquidity_vault","free"),("insurance_vault_authority","free"),("insurance_vault","free"),("fee_vault_authority","free"),("fee_vault","free"),("token_program","tprog"),("system_program","sprog"))),
+ "purge": dict(role="risk_admin", base={"op":"purge","acct":"A5","bank":"B8"},
+                   slots=S(("group","group"),("marginfi_account","acct_g"),("risk_admin","signer"),("bank","bankf"))),
  # ---- permissionless housekeeping
  "init_liq_record": dict(role="anyone", base={"op":"init_liq_record","acct":"A5"},
                    slots=S(("marginfi_account","free"),("fee_payer","signer"),("liquidation_record","new"),("system_program","sprog"))),
